@@ -271,7 +271,14 @@ def _ods_element_text(element, location):
                 raise errors.DataFormatError(
                     "text:c is %s but must be at least 0" % _compat.text_repr(space_count_text), location
                 )
-            result += " " * space_count
+            try:
+                result += " " * space_count
+            except (MemoryError, OverflowError):
+                raise errors.DataFormatError(
+                    "text:c is %s but must be a number of blanks that fits into memory"
+                    % _compat.text_repr(space_count_text),
+                    location,
+                )
         elif child.tag == _TEXT_TAB:
             result += "\t"
         elif child.tag == _TEXT_LINE_BREAK:
@@ -380,7 +387,14 @@ def ods_rows(source_ods_path, sheet=1):
                 _ods_element_text(text_p, location)
                 for text_p in _findall(table_cell, "text:p", namespaces=_OOO_NAMESPACES)
             )
-            row.extend([cell_value] * repeated_count)
+            try:
+                row.extend([cell_value] * repeated_count)
+            except (MemoryError, OverflowError):
+                raise errors.DataFormatError(
+                    "table:number-columns-repeated is %s but must be a number of cells that fits into memory"
+                    % _compat.text_repr(repeated_text),
+                    location,
+                )
             location.advance_cell(repeated_count)
         is_last_table_row = table_row_index == len(table_rows) - 1
         if is_last_table_row and not any(row):
